@@ -158,6 +158,30 @@ TEXT = {
         note=COMMON_NOTE + " The enclosure operators are part of the specification (spec/Exp.tla).",
         technique="TLA+ trace validation with TLC against an interval enclosure computed by the specification",
         ref="DESIGN.md section 7 C13"),
+    "C14": dict(
+        level="The specification decodes IEEE-754 bit patterns (sign / exponent field / mantissa split by long division, subnormals, "
+              "2^k and 5^k from constant tables) into the exact decimal they denote. float -> decimal must be that value exactly "
+              "(NaN, infinities => error); float -> decimal -> to_f64 must return the identical bit pattern (-0.0 => +0.0; a "
+              "binary32 comes back as the same value, checked on the fields); to_f64 of an arbitrary decimal must have the right "
+              "sign, relative error <= 2^-48 in the normal range, infinity only beyond or within that tolerance of f64::MAX, and "
+              "at most one subnormal step of error below MIN_POSITIVE. Inputs: every binary32 exponent field x boundary and "
+              "random mantissas x both signs, 127 (quick) / all 2048 (thorough) binary64 exponent fields likewise, the lowest 70 "
+              "subnormals, the neighbourhoods of MIN_POSITIVE and MAX, random bit patterns, decimals of 1..400 digits with "
+              "exponents -400..400, exact halfway cases between adjacent floats and their far-digit neighbours. The exhaustive "
+              "2^32 binary32 sweep of the property's quantifier is NOT reached (stratified sample instead).",
+        note=COMMON_NOTE,
+        technique="TLA+ trace validation with TLC against an exact IEEE-754 decoder in the specification",
+        ref="DESIGN.md section 7 C14"),
+    "C15": dict(
+        level="The specification truncates toward zero by digit shift, compares with the type's range as a big integer (ZInt), and "
+              "lets a negative decimal never convert to an unsigned type; is_integer <=> the low `scale` digits are zero; "
+              "From<primitive>/From<BigInt>/FromPrimitive are exact with scale 0. TLC validates to_i64/to_i128/to_u64/to_u128/"
+              "to_bigint on values and references for every value within +-2 and +-0.5 of each MIN/MAX (also of the narrower "
+              "types and one past the limits) at scales 0,1,2,5,19,40, negative scales pushing a small unscaled value over a "
+              "limit, fractions in (-1,1), zeros with scales, 6000/60000 random decimals of 1..60 digits at scales -40..40.",
+        note=COMMON_NOTE,
+        technique="TLA+ trace validation with TLC (functional)",
+        ref="DESIGN.md section 7 C15"),
     "C16": dict(
         level="The specification defines {:.N} as: a numeral with exactly N fraction digits whose value is RoundToScale(x, N, "
               "configured mode) - the same operator that decides C06 - or, for integers whose padding would exceed the limit, an "
